@@ -94,6 +94,9 @@ def eval_call(eng, e, st):
             return eng.ev(e.args[1], st)
     if is_logger_call(e):
         return [(st, VNone())]
+    if isinstance(e.func, ast.Attribute) and e.func.attr == "join" and len(e.args) == 1 \
+            and isinstance(e.args[0], ast.GeneratorExp):
+        return join_genexp(eng, e, st)
 
     # ---- evaluate callee and arguments
     out = []
@@ -123,6 +126,36 @@ def eval_call(eng, e, st):
             args = vals[:len(e.args)]
             kwargs = dict(zip(kwnames, vals[len(e.args):]))
             out += apply_callable(eng, s1, fv, args, kwargs, e)
+    return out
+
+
+def join_genexp(eng, e, st):
+    """sep.join(random.choice(chars) for _ in range(n)) with sep == "": a string of n characters drawn from chars."""
+    ge = e.args[0]
+    if len(ge.generators) != 1 or ge.generators[0].ifs:
+        raise Unsupported("join over a general generator expression")
+    elt = ge.elt
+    if not (isinstance(elt, ast.Call) and ast.unparse(elt.func) == "random.choice" and len(elt.args) == 1):
+        raise Unsupported("join over a general generator expression")
+    out = []
+    for s0, sep in eng.ev(e.func.value, st):
+        if not (isinstance(sep, VSeq) and sep.py == ""):
+            raise Unsupported("join with a non-empty separator")
+        for s1, (chars, rng) in eng.evs([elt.args[0], ge.generators[0].iter], s0):
+            chars = eng.deref(s1, chars)
+            if not (isinstance(rng, VConst) and rng.what == "range" and isinstance(chars, VSeq)):
+                raise Unsupported("join over a general generator expression")
+            _, lo, hi, step = rng.py
+            n = z3.If(hi > lo, hi - lo, z3.IntVal(0))
+            r = fresh("joined", ISq)
+            i = fresh("i", I)
+            j = fresh("j", I)
+            s1.assume(IS.len(r) == n,
+                      z3.ForAll([i], z3.Implies(z3.And(0 <= i, i < n),
+                                                z3.Exists([j], z3.And(0 <= j, j < IS.len(chars.t), IS.at(chars.t, j) == IS.at(r, i)))),
+                                patterns=[IS.at(r, i)]), is_chars_fact(r))
+            eng.fr.assumed_used.add("random.choice(xs) returns an element of xs")
+            out.append((s1, VSeq(r, "str")))
     return out
 
 
@@ -310,6 +343,12 @@ def builtin_call(eng, st, name, args, kwargs, node):
         if isinstance(v, VTuple):
             return [(st, v if name == "tuple" else eng.new_list(st, v.items))]
         raise Unsupported(f"{name}({v!r})")
+    if name == "map":
+        f = d(args[0])
+        v = d(args[1])
+        if isinstance(f, VConst) and f.what == "builtin" and f.py == "ord" and isinstance(v, VSeq) and v.kind == "str":
+            return [(st, VSeq(v.t, "ilist"))]
+        raise Unsupported("map other than map(ord, str)")
     if name == "abs":
         t = eng.as_int(st, args[0], node)
         return [(st, VInt(z3.If(t < 0, -t, t)))]
@@ -802,6 +841,9 @@ def contract_call(eng, st, target, args, kwargs, node):
     if c is None:
         raise Unsupported(f"call to {target} which has no contract")
     module, fdef = eng.repo.func(target)
+    if fdef is not None and any(isinstance(d, ast.Name) and d.id == "classmethod" for d in fdef.decorator_list):
+        if len(args) + len(kwargs) < len(c.params):
+            args = [VConst(f"{target.split(':')[0]}:{target.split(':')[1].rsplit('.', 1)[0]}", "class")] + list(args)
     bound = bind_params(eng, c, fdef, module, args, kwargs)
     fr.callees.add(c.key)
     if c.assumed:
